@@ -146,8 +146,8 @@ def run_mutant(job):
             if rc == 1:
                 status = "detected"
                 break
-            if rc == 2 and status != "detected":
-                status = "machinery-failure"
+            if rc not in (0, 1) and status != "detected":
+                status = "machinery-failure"   # exit 2, or killed (a runaway mutant: 137)
         res["status"] = status
         return res
     finally:
